@@ -105,6 +105,7 @@ def _echo_methods():
         M("strLen", "echo", args=("str",), echo="len"),
         M("strByte", "echo", args=("str", "int"), echo="byte"),
         M("scaled", "echo", args=("double",), echo="scaled"),  # pt()*x
+        M("mix", "echo", args=("double", "double"), echo="mix"),  # a * 2 + b
     ]
 
 
